@@ -36,6 +36,7 @@ def model_params(cs):
     """parameters of the reference node model, incl. the generated limit parameters -> {wire: info}"""
     res = {}
     for p in cs['params']:
+        p = dict(p, T=classgen.effective_T(p))    # the configuration may move the limits declared in the class
         res[p['name']] = dict(p, wire=classgen.wire_name(p['name'], p.get('export', True)))
         lim = p.get('limits')
         extra = []
@@ -52,7 +53,7 @@ def model_params(cs):
 
 @st.composite
 def history_case(draw):
-    classes = [draw(classgen.class_spec()) for _ in range(draw(st.integers(1, 2)))]
+    classes = [draw(classgen.class_spec(ro_variants=True)) for _ in range(draw(st.integers(1, 2)))]
     reqs = []
     for _ in range(draw(st.integers(1, 20))):
         mi = draw(st.integers(0, len(classes) - 1))
@@ -138,7 +139,7 @@ def near(a, b):
 def expect_change(cs, p, x, before, mname):
     """-> (verdict, families, why)   verdict in succeed/fail/either"""
     if p.get('constant') or p.get('readonly'):
-        return 'fail', {'ReadOnly'}, 'readonly'
+        return 'fail', {'ReadOnly'}, 'readonly' + (':' + p['ro_how'] if p.get('ro_how') else '')
     T = p['T']
     st_, why = rm.status(T, x, 'wire')
     if st_ == 'R':
@@ -220,7 +221,8 @@ def strip_none(v):
 def run_history(ctx, case):
     classes = [classgen.build_class(cs, f'G{i}') for i, cs in enumerate(case['classes'])]
     recs = [c.rec for c in classes]
-    kit = Kit({f'm{i}': {'cls': c, 'description': 'generated'} for i, c in enumerate(classes)})
+    kit = Kit({f'm{i}': dict({'cls': c, 'description': 'generated'}, **classgen.cfg_overrides(case['classes'][i]))
+               for i, c in enumerate(classes)})
     if kit.errors:
         ctx.finding('build:generated-node-refused', {'kind': 'history', 'classes': case['classes'], 'reqs': []}, repr(kit.errors)[:300] + repr(kit.tb)[-600:])
         return
